@@ -1072,7 +1072,13 @@ func (s *session) deliver(op hOp) {
 		s.label("outside_snapshot")
 		// (after a reopen the observer object - and the last snapshot it was told - lives on: "outside" means beyond
 		// every snapshot announced to it in this session)
-		if (m.snapValid || m.markers > 0) && e.Seq <= m.snap[1] {
+		if op.AtL && m.snapValid && m.snap[0] >= 2 && len(m.all) > 0 {
+			// a STALE event: it belongs to an older snapshot (its seqno lies below the start of the one announced last, at or
+			// below what was sent before) - a server that sends it is as wrong as one that runs past the snapshot's end
+			e.Seq = m.snap[0] - 1
+			sv.hist[len(sv.hist)-1].Seq = e.Seq
+			s.label("stale_event_below_snapshot")
+		} else if (m.snapValid || m.markers > 0) && e.Seq <= m.snap[1] {
 			e.Seq = m.snap[1] + 1 + uint64(op.Gap)
 			sv.hist[len(sv.hist)-1].Seq = e.Seq
 		}
